@@ -735,6 +735,11 @@ func classify(sec, tag string) string {
 		if strings.Contains(sec, "VERIF-HANG") || strings.Contains(sec, "all goroutines are asleep") {
 			return "confirmed(hang)"
 		}
+		if strings.Contains(sec, "VERIF-ASSERT-FAILED tag=\"liveness:") {
+			// the never-ending activity runs on a goroutine of its own natively: the harness's
+			// liveness assertion notices it instead of the replay timing out
+			return "confirmed(hang: still busy natively)"
+		}
 	default:
 		if strings.Contains(sec, fmt.Sprintf("VERIF-ASSERT-FAILED tag=%q", tag)) {
 			return "confirmed"
